@@ -10,6 +10,6 @@ echo "== demo on clean tree"; PYTHONPATH="$WT/src" timeout 1500 /venv/bin/python
 git apply "$SD/patch.diff" || { echo "PATCH DOES NOT APPLY"; git -C /repo worktree remove --force "$WT"; exit 4; }
 echo "== demo on patched tree"; PYTHONPATH="$WT/src" timeout 1500 /venv/bin/python "$SD/demo.py" "$WT" >/tmp/seed_demo_patched_$$.log 2>&1; echo "exit $?"; tail -3 /tmp/seed_demo_patched_$$.log | cut -c1-300
 echo "== check $ID ($TIER) on patched tree"
-cd /verif && VERIF_REPO="$WT" ./check "$ID" --tier "$TIER" 2>&1 | grep -E "VIOLATION|KNOWN-FINDING|SPEC-DRIFT|MACHINERY|^\[$ID\]" | cut -c1-400 | (grep -v SPEC-DRIFT || true) | head -8
+cd /verif && VERIF_REPO="$WT" ./check "$ID" --tier "$TIER" 2>&1 | grep -E "VIOLATION|KNOWN-FINDING|SPEC-DRIFT|MACHINERY|^\[$ID\] tier" | cut -c1-400 | (grep -v SPEC-DRIFT || true) | head -8
 git -C /repo worktree remove --force "$WT"
 rm -f /tmp/seed_demo_clean_$$.log /tmp/seed_demo_patched_$$.log
